@@ -124,3 +124,45 @@ CHECK = store.StoreCheck(
          "holds a catch-all subscription",
 )
 CHECK.export(globals())
+
+_base_cases = CHECK.cases
+_base_run = CHECK.run_case
+_base_describe = CHECK.describe
+
+
+def cases(tier):
+    """STORE shards plus the binding of the SQLite shim to the real aiosqlite driver (same sequences on both, see nrmc/sqlconf.py)"""
+    import itertools
+
+    out = list(_base_cases(tier))
+    names = list(CHECK.U()["U6"])
+    for first in names:
+        out.append(("conformance", "aiosqlite", [first], 2))
+    return out
+
+
+def describe(case):
+    return _base_describe(case)
+
+
+def run_case(case):
+    if case[0] != "conformance":
+        return _base_run(case)
+    from .. import sqlconf
+
+    uni = CHECK.U()["U6"]
+    first = case[2][0]
+    viol = []
+    n = 0
+    for second in uni:
+        for third in (first, "reg"):
+            seqn = [first, second, third]
+            evs = [uni[x] for x in seqn if "id" in uni[x] and "sig" in uni[x] or True]
+            (ra, da), (rb, db) = sqlconf.compare(evs, first)
+            n += 1
+            if ra != rb or da != db:
+                viol.append({"case": "conformance", "clause": "shim-agrees-with-aiosqlite", "sig": ",".join(seqn),
+                             "detail": "sequence %s: real aiosqlite run gives %r, shim run gives %r, dumps equal=%s" % (seqn, ra, rb, da == db)})
+    return {"id": "conformance|%s" % first, "viol": viol, "outcome": None, "evals": n, "states": 0, "transitions": 0, "nontrivial": True,
+            "desc": describe(case), "extra": {"aiosqlite_conformance_sequences": n},
+            "sample": {"case": "conformance", "first": first, "sequences": n}}
